@@ -259,8 +259,8 @@ def expected_encode(clock, argv, stdin, files):
 # ------------------------------------------------------------------------------------------------
 # generators
 # ------------------------------------------------------------------------------------------------
-NODES = ["node1", "n", "dtn", "a-5", "knoten-äö", "€", "x" * 23, "home.net", "node:1", "\U0001f680", "none1", "1"]
-SVCS = ["", "in", "incoming", "~news", "a/b/c", "123456", "dienst-ü", "a=b", "x y", "-", "%20"]
+NODES = ["node1", "n", "dtn", "a-5", "knoten-äö", "€", "x" * 23, "home.net", "node:1", "\U0001f680", "none1", "1", "nonesuch", "sensor%41", "GW1"]
+SVCS = ["", "in", "incoming", "~news", "a/b/c", "123456", "dienst-ü", "a=b", "x y", "-", "%20", "%7Enews", "inbox#urgent", "a#", "#", "q?x=1", "INBOX"]
 
 
 def gen_eid_text(rng, allow_none=True):
